@@ -609,6 +609,20 @@ func Gen(r Rnd) *Doc {
 		t := &Tag{Name: pick(r, []string{"@g%d", "@g%d", "@pet_store%d", "@a-b%d"}), Annotation: genAnnotation(r, 1, 2)}
 		t.Name = fmt.Sprintf(t.Name, i)
 		if chance(r, 1, 3) {
+			// a declared tag named like the tag that untagged interactions get from their path ("/cats/..." -> @cats): such
+			// interactions are listed under the declared tag
+			cand := pick(r, []string{"@cats", "@dogs", "@a", "@b", "@rpc"})
+			free := true
+			for _, u := range g.tags {
+				if u.Name == cand {
+					free = false
+				}
+			}
+			if free {
+				t.Name = cand
+			}
+		}
+		if chance(r, 1, 3) {
 			t.Description = genDescription(r)
 		}
 		g.tags = append(g.tags, t)
